@@ -1474,3 +1474,212 @@ func TestVerifC18ReferenceSelfTest(t *testing.T) {
 		}
 	}
 }
+
+// ---------------------------------------------------------------------------
+// histories: ONE long-lived validator and reconciler, the allow-list role is
+// edited in place (same UID, new resourceVersion) or deleted and recreated
+// between calls. Every verdict is judged against the allow-list as stored at
+// the time of the call.
+
+// c18RBACClient presents RBAC objects the way the real API server stores them:
+// without a metadata.generation (the RBAC registry strategies never set one).
+// verifsim stamps a generation on every kind and bumps it on every change
+// outside metadata/status, which would hand the code under test a change
+// signal that does not exist in a cluster.
+type c18RBACClient struct{ client.Client }
+
+func (c c18RBACClient) Get(ctx context.Context, key client.ObjectKey, obj client.Object, opts ...client.GetOption) error {
+	err := c.Client.Get(ctx, key, obj, opts...)
+	switch obj.(type) {
+	case *rbacv1.ClusterRole, *rbacv1.ClusterRoleBinding, *rbacv1.Role, *rbacv1.RoleBinding:
+		obj.SetGeneration(0)
+	}
+	return err
+}
+
+func c18StoredAllow(s *verifsim.Sim) (rules []rbacv1.PolicyRule, uid string, exists bool) {
+	o := s.Get(c18RoleKey(c18AllowRole))
+	if o == nil {
+		return nil, "", false
+	}
+	cr := &rbacv1.ClusterRole{}
+	if err := runtime.DefaultUnstructuredConverter.FromUnstructured(o, cr); err != nil {
+		panic(err)
+	}
+	return cr.Rules, string(cr.GetUID()), true
+}
+
+// c18Shrank reports whether before allows a concrete request that after does not.
+func c18Shrank(before, after []rbacv1.PolicyRule) bool {
+	return c18Uncovered(before, after) != nil
+}
+
+func TestVerifC18AllowListHistories(t *testing.T) {
+	rec := verifkit.New(t, "C18", "histories of 3-9 steps on one verifsim with ONE ClusterRoleBackedValidator and ONE roles Reconciler reused throughout: edit the allow-list ClusterRole in place (replace / remove a rule / add a rule; UID kept, no generation as for real RBAC objects), delete+recreate it, validate drawn permission requests, reconcile a new revision with drawn requests (2/3 of requests derived from rules the allow-list has or had); oracle per call against the allow-list as stored then; non-trivial = a call after the allow-list shrank in place; distinct=history")
+	rapid.Check(t, func(t *rapid.T) {
+		ctx := context.Background()
+		var allow []rbacv1.PolicyRule
+		for i := 0; i < rapid.IntRange(1, 3).Draw(t, "nallow"); i++ {
+			allow = append(allow, c18Rule(t, true))
+		}
+		s := c18NewSim(allow, true)
+		admin := s.Client("admin")
+		setup := s.Client("package-manager")
+		c := c18RBACClient{s.Client("rbac-manager")}
+		v := NewClusterRoleBackedValidator(c, c18AllowRole)
+		r := NewReconciler(c18Mgr{c: c}, WithPermissionRequestsValidator(v), WithOrgDiffer(OrgDiffer{DefaultRegistry: "xpkg.upbound.io"}))
+		pool := append([]rbacv1.PolicyRule{}, allow...) // every rule the allow-list has or had
+		rec.Eval()
+
+		drawRequests := func() []rbacv1.PolicyRule {
+			var out []rbacv1.PolicyRule
+			for i := 0; i < rapid.IntRange(1, 3).Draw(t, "nreq"); i++ {
+				if rapid.IntRange(0, 2).Draw(t, "derived") != 0 {
+					out = append(out, c18Derive(t, pool[rapid.IntRange(0, len(pool)-1).Draw(t, "from")]))
+				} else {
+					out = append(out, c18Rule(t, false))
+				}
+			}
+			return out
+		}
+
+		var history []string
+		var lastCallAllow []rbacv1.PolicyRule // allow-list as stored at the previous call on v
+		lastCallUID, called := "", false
+		interesting := false
+		classify := func() {
+			cur, uid, _ := c18StoredAllow(s)
+			switch {
+			case !called:
+				rec.Label("history:first-call")
+			case uid != lastCallUID:
+				rec.Label("history:allowlist-recreated-since-previous-call")
+			case c18Shrank(lastCallAllow, cur):
+				rec.Label("history:allowlist-shrank-in-place-since-previous-call")
+				interesting = true
+			case c18Shrank(cur, lastCallAllow):
+				rec.Label("history:allowlist-grew-in-place-since-previous-call")
+			default:
+				rec.Label("history:allowlist-same-since-previous-call")
+			}
+			lastCallAllow, lastCallUID, called = cur, uid, true
+		}
+
+		nrev := 0
+		nsteps := rapid.IntRange(3, 9).Draw(t, "nsteps")
+		for step := 0; step < nsteps; step++ {
+			op := rapid.IntRange(0, 9).Draw(t, "op")
+			if step == 0 {
+				op = 9 // start by using the validator, so that there is something to go stale
+			}
+			switch {
+			case op <= 3: // edit in place
+				cr := &rbacv1.ClusterRole{}
+				if err := admin.Get(ctx, types.NamespacedName{Name: c18AllowRole}, cr); err != nil {
+					t.Fatalf("admin get: %v", err)
+				}
+				switch k := rapid.IntRange(0, 3).Draw(t, "edit"); {
+				case k == 0 && len(cr.Rules) > 0:
+					i := rapid.IntRange(0, len(cr.Rules)-1).Draw(t, "drop")
+					cr.Rules = append(append([]rbacv1.PolicyRule{}, cr.Rules[:i]...), cr.Rules[i+1:]...)
+					history = append(history, "drop-rule")
+				case k == 1:
+					nr := c18Rule(t, true)
+					cr.Rules = append(cr.Rules, nr)
+					pool = append(pool, nr)
+					history = append(history, "add-rule")
+				case k == 2:
+					cr.Rules = nil
+					history = append(history, "clear-rules")
+				default:
+					nr := c18Rule(t, true)
+					cr.Rules = []rbacv1.PolicyRule{nr}
+					pool = append(pool, nr)
+					history = append(history, "replace-rules")
+				}
+				if err := admin.Update(ctx, cr); err != nil {
+					t.Fatalf("admin update: %v", err)
+				}
+			case op == 4: // delete and recreate (new UID)
+				cur, _, _ := c18StoredAllow(s)
+				if err := admin.Delete(ctx, &rbacv1.ClusterRole{ObjectMeta: metav1.ObjectMeta{Name: c18AllowRole}}); err != nil {
+					t.Fatalf("admin delete: %v", err)
+				}
+				if rapid.Bool().Draw(t, "recreate-smaller") && len(cur) > 0 {
+					cur = cur[1:]
+				}
+				if err := admin.Create(ctx, &rbacv1.ClusterRole{ObjectMeta: metav1.ObjectMeta{Name: c18AllowRole}, Rules: cur}); err != nil {
+					t.Fatalf("admin create: %v", err)
+				}
+				history = append(history, "recreate")
+			case op <= 6: // validate
+				requests := drawRequests()
+				classify()
+				cur, _, _ := c18StoredAllow(s)
+				rejected, err := v.ValidatePermissionRequests(ctx, requests...)
+				history = append(history, "validate")
+				if err != nil {
+					t.Fatalf("ValidatePermissionRequests: %v (history %v)", err, history)
+				}
+				if len(rejected) == 0 {
+					if a := c18Uncovered(requests, cur); a != nil {
+						t.Fatalf("after %v the long-lived validator rejected nothing, yet the requests allow %s which the allow-list role as stored now does not allow\nallow-list now: %s\nrequests: %s", history, a, verifkit.JSON(cur), verifkit.JSON(requests))
+					}
+					if c18GrantsAnything(requests) {
+						rec.Label("history:validate-accepted-nonempty")
+					}
+				} else {
+					rec.Label("history:validate-rejected")
+				}
+			default: // reconcile a new revision
+				requests := drawRequests()
+				name := fmt.Sprintf("provider-%d-rev1", nrev)
+				nrev++
+				pr := c18RevObject(c18Rev{Name: name, Pkg: c18Pkg{Org: "acme", Repo: "provider-a", Tag: ":v1.0.0"}})
+				if err := setup.Create(ctx, pr); err != nil {
+					t.Fatalf("setup: %v", err)
+				}
+				pairs := [][2]string{{"example.org", "widgets"}}
+				pr.Status.ObjectRefs = c18PairRefs(pairs)
+				pr.Status.PermissionRequests = requests
+				if err := setup.Status().Update(ctx, pr); err != nil {
+					t.Fatalf("setup: %v", err)
+				}
+				classify()
+				cur, _, _ := c18StoredAllow(s)
+				before := s.LogLen()
+				_, _ = r.Reconcile(ctx, reconcile.Request{NamespacedName: types.NamespacedName{Name: name}})
+				history = append(history, "reconcile")
+				uncovered := c18Uncovered(requests, cur)
+				wrote := 0
+				for _, w := range s.Log()[before:] {
+					if w.Key.Group != rbacv1.GroupName || w.Key.Kind != "ClusterRole" {
+						continue
+					}
+					wrote++
+					if uncovered != nil {
+						t.Fatalf("after %v the long-lived reconciler wrote %s %s although the requests allow %s, which the allow-list role as stored now does not allow\nallow-list now: %s\nrequests: %s", history, w.Verb, w.Key.Name, uncovered, verifkit.JSON(cur), verifkit.JSON(requests))
+					}
+					if w.Err != "" || w.After == nil {
+						continue
+					}
+					cr := &rbacv1.ClusterRole{}
+					if err := runtime.DefaultUnstructuredConverter.FromUnstructured(w.After, cr); err != nil {
+						panic(err)
+					}
+					if viol := c18CheckProviderRole(cr.GetName(), cr.Rules, pairs, requests); viol != "" {
+						t.Fatalf("after %v: %s", history, viol)
+					}
+				}
+				if wrote > 0 {
+					rec.Label("history:reconcile-wrote-roles")
+				} else {
+					rec.Label("history:reconcile-wrote-nothing")
+				}
+			}
+		}
+		if interesting {
+			rec.NonTrivial(fmt.Sprint(history)+verifkit.JSON(pool), func() any { return map[string]any{"history": history} })
+		}
+	})
+}
